@@ -1054,6 +1054,9 @@ func (self *Node) deleteChild(path Path) Node {
 		if err != nil {
 			return errNode(meta.ErrRead, "", err)
 		}
+		if id < 0 {
+			return errNode(meta.ErrInvalidParam, fmt.Sprintf("invalid index %d", id), nil)
+		}
 		if id >= size {
 			return errNotFound
 		}
